@@ -51,6 +51,8 @@ package server
 //@ func (s *Server) checkAcme(ctx context.Context, hostname string, proof *protocol.ProofOfWork, token *protocol.ClientToken, client *protocol.Node) (found bool, err error)
 //@   safety off
 //@   opt frame=off
+//@   requires s.Chord != nil
+//@   ensures read-only: s.Chord.kvWrites == old(s.Chord.kvWrites)
 //@   ghost perr error = nil
 //@   ghost looked bool = false
 //@   ghost ferr error = nil
@@ -103,6 +105,7 @@ package server
 //@ func (s *Server) getCertificate(ctx context.Context, proof *protocol.ProofOfWork, hostname string) (cert *tls.Certificate, err error)
 //@   safety off
 //@   opt frame=off
+//@   requires s.Chord != nil
 //@   ghost aerr error = nil
 //@   ghost nerr error = nil
 //@   ghost cerr error = nil
@@ -121,7 +124,7 @@ package server
 //@ func (s *Server) Sign(ctx context.Context, req *protocol.KeylessSignRequest) (resp *protocol.KeylessSignResponse, err error)
 //@   safety off
 //@   opt frame=off
-//@   requires req != nil
+//@   requires req != nil && s.Chord != nil
 //@   ghost gerr error = nil
 //@   ghost signed bool = false
 //@   at after call getCertificate#1: ghost gerr := callresult1
@@ -129,3 +132,312 @@ package server
 //@   at call Sign#1: assert signs-only-with-a-certificate-a-supported-hash-and-an-exact-length-digest: gerr == nil && callarg1 == req.Digest && ((req.Algo == protocol.KeylessSignRequest_SHA256 && len(req.Digest) == 32) || (req.Algo == protocol.KeylessSignRequest_SHA384 && len(req.Digest) == 48) || (req.Algo == protocol.KeylessSignRequest_SHA512 && len(req.Digest) == 64))
 //@   at call Sign#1: ghost signed := true
 //@   ensures local-success-means-signed: err == nil ==> signed
+
+// ---- C25: every tunnel / keyless RPC except Ping and RegisterIdentity needs a verified certificate whose
+// token is registered; a refused call issues no mutating KV request.
+//@ func extractAuthenticated(ctx context.Context) (tok *protocol.ClientToken, node *protocol.Node, err error)
+//@   safety off
+//@   opt frame=off
+//@   ghost d *transport.StreamDelegate = nil
+//@   ghost looked bool = false
+//@   ghost ierr error = nil
+//@   ghost id *pki.Identity = nil
+//@   at after call GetDelegation#1: ghost d := callresult
+//@   at call ExtractCertificateIdentity#1: assert identity-comes-from-the-verified-certificate: d != nil && d.Certificate != nil && callarg0 == d.Certificate
+//@   at after call ExtractCertificateIdentity#1: ghost ierr := callresult1
+//@   at after call ExtractCertificateIdentity#1: ghost id := callresult0
+//@   at after call ExtractCertificateIdentity#1: ghost looked := true
+//@   ensures local-no-certificate-no-identity: (d == nil || d.Certificate == nil || ierr != nil) ==> (err != nil && tok == nil && node == nil)
+//@   ensures local-identity-is-the-certificates: err == nil ==> (looked && ierr == nil && tok != nil && fresh(tok) && tok.Token == id.Token)
+//@   ensures refused-has-no-identity: err != nil ==> (tok == nil && node == nil)
+//@   ensures success-has-a-token: err == nil ==> tok != nil
+
+//@ func (s *Server) getClientByToken(ctx context.Context, token *protocol.ClientToken) (cli *protocol.Node, err error)
+//@   safety off
+//@   opt frame=off
+//@   requires s.Chord != nil
+//@   ghost gerr error = nil
+//@   ghost n int = -1
+//@   at after call Get#1: ghost gerr := callresult1
+//@   at after call Get#1: ghost n := len(callresult0)
+//@   ensures local-an-empty-or-unreadable-registration-is-no-registration: (gerr != nil || n == 0) ==> (err != nil && cli == nil)
+//@   ensures read-only: s.Chord.kvWrites == old(s.Chord.kvWrites)
+//@   ensures refused-has-no-client: err != nil ==> cli == nil
+
+//@ func (s *Server) saveClientToken(ctx context.Context, token *protocol.ClientToken, client *protocol.Node) (err error)
+//@   safety off
+//@   opt frame=off
+//@   requires s.Chord != nil
+//@   ensures at-most-one-write: s.Chord.kvWrites == old(s.Chord.kvWrites) || s.Chord.kvWrites == old(s.Chord.kvWrites) + 1
+
+//@ func (s *Server) verifyClientIdentity(ctx context.Context) (rctx context.Context, rerr error)
+//@   safety off
+//@   opt frame=off
+//@   requires s.Chord != nil
+//@   ghost method string = ""
+//@   ghost d *transport.StreamDelegate = nil
+//@   ghost aerr error = nil
+//@   ghost gerr error = nil
+//@   ghost authed bool = false
+//@   ghost looked bool = false
+//@   at after call MethodName#1: ghost method := callresult0
+//@   at after call GetDelegation#1: ghost d := callresult
+//@   at after call extractAuthenticated#1: ghost aerr := callresult2
+//@   at after call extractAuthenticated#1: ghost authed := true
+//@   at call getClientByToken#1: assert registration-is-looked-up-for-the-certificates-token: authed && aerr == nil && callarg2 == token
+//@   at after call getClientByToken#1: ghost gerr := callresult1
+//@   at after call getClientByToken#1: ghost looked := true
+//@   at call saveClientToken#1: assert token-is-rewritten-only-for-a-registered-verified-client: looked && gerr == nil && aerr == nil && callarg2 == token && callarg3 == verifiedClient
+//@   ensures local-no-delegation-is-refused: d == nil ==> rerr != nil
+//@   ensures local-only-ping-and-registration-are-exempt: (rerr == nil && method != "Ping" && method != "RegisterIdentity") ==> (authed && aerr == nil && looked && gerr == nil)
+//@   ensures local-unverified-or-unregistered-caller-is-refused: (d != nil && method != "Ping" && method != "RegisterIdentity" && (aerr != nil || gerr != nil)) ==> rerr != nil
+//@   ensures a-refused-call-changes-nothing-in-the-dht: rerr != nil ==> s.Chord.kvWrites == old(s.Chord.kvWrites)
+//@   ensures exempt-methods-change-nothing: (method == "Ping" || method == "RegisterIdentity") ==> s.Chord.kvWrites == old(s.Chord.kvWrites)
+
+// ---- C51: gateway candidates
+//@ pure (*go.miragespace.co/specter/spec/protocol.TunnelDestination).GetTunnel
+//@ pure (*go.miragespace.co/specter/spec/protocol.TunnelDestination).GetChord
+//@ func (s *Server) lookupDestination(ctx context.Context, key string) (dst *protocol.TunnelDestination, err error)
+//@   safety off
+//@   opt frame=off
+//@   requires s.Chord != nil
+//@   ghost gerr error = nil
+//@   ghost n int = -1
+//@   at call Get#1: assert reads-the-given-key: str(callarg1) == key
+//@   at after call Get#1: ghost gerr := callresult1
+//@   at after call Get#1: ghost n := len(callresult0)
+//@   ensures local-a-missing-or-unreadable-record-is-an-error: (gerr != nil || n == 0) ==> (err != nil && dst == nil)
+//@   ensures success-has-a-record: err == nil ==> dst != nil
+//@   ensures refused-has-no-record: err != nil ==> dst == nil
+//@   ensures read-only: s.Chord.kvWrites == old(s.Chord.kvWrites)
+
+// one lookup job of GetNodes: the tunnel endpoint of the candidate's published destination record
+//@ func (s *Server) GetNodes$1(fnCtx context.Context) (r *protocol.Node, err error)
+//@   safety off
+//@   opt frame=off
+//@   requires s.Chord != nil
+//@   ghost lerr error = nil
+//@   ghost rec *protocol.TunnelDestination = nil
+//@   at call lookupDestination#1: assert looks-up-the-candidates-own-record: callarg2 == tun.DestinationByChordKey(chord.Identity())
+//@   at after call lookupDestination#1: ghost lerr := callresult1
+//@   at after call lookupDestination#1: ghost rec := callresult0
+//@   ensures local-missing-record-fails-the-job: lerr != nil ==> (err != nil && r == nil)
+//@   ensures local-endpoint-comes-from-the-record: lerr == nil ==> (err == nil && r == rec.GetTunnel())
+
+//@ func (s *Server) GetNodes(ctx context.Context, req *protocol.GetNodesRequest) (resp *protocol.GetNodesResponse, err error)
+//@   safety off
+//@   opt frame=off
+//@   requires s.Chord != nil
+//@   ghost aerr error = nil
+//@   ghost e0 gmap[int]error
+//@   ghost r0 []*protocol.Node
+//@   ghost njobs int = -1
+//@   at after call extractAuthenticated#1: ghost aerr := callresult2
+//@   at call MakeSuccListByAddress#1: assert candidates-start-with-this-node-and-are-at-most-three-distinct-addresses: aerr == nil && callarg0 == s.Chord && callarg1 == successors && callarg2 == 3
+//@   at call All#1: assert at-most-three-lookups: len(callarg1) <= 3 && len(callarg1) <= len(vnodes)
+//@   at call All#1: ghost njobs := len(callarg1)
+//@   at after call All#1: ghost e0 := snap(callresult1)
+//@   at after call All#1: ghost r0 := callresult0
+//@   ensures local-unverified-caller-is-refused: aerr != nil ==> (err != nil && resp == nil)
+//@   ensures local-any-failed-lookup-fails-the-call: err == nil ==> (njobs >= 0 && (forall i int {e0[i]} :: (0 <= i && i < njobs) ==> e0[i] == nil))
+//@   ensures local-endpoints-are-the-looked-up-ones-in-order: err == nil ==> (resp != nil && resp.Nodes == r0 && len(resp.Nodes) <= 3)
+//@   ensures changes-nothing-in-the-dht: s.Chord.kvWrites == old(s.Chord.kvWrites)
+//@   loop chord: invariant jobs: -1 <= rangeindex && rangeindex < len(vnodes) && len(vnodes) <= 3 && 0 <= len(lookupJobs) && len(lookupJobs) <= rangeindex + 1 && s.Chord.kvWrites == old(s.Chord.kvWrites)
+//@   loop err: invariant checked: -1 <= rangeindex#2 && rangeindex#2 < len(errors) && len(errors) == njobs && (forall i int {e0[i]} :: (0 <= i && i <= rangeindex#2) ==> e0[i] == nil) && (forall i int {errors[i]} :: (0 <= i && i < len(errors)) ==> errors[i] == e0[i]) && servers == r0 && s.Chord.kvWrites == old(s.Chord.kvWrites)
+
+// ---- C26: publishing / unpublishing / releasing hostnames
+//@ spec nodeAddr(n *protocol.Node) string = n.GetAddress()
+
+//@ func uniqueNodes(nodes []*protocol.Node) (r []*protocol.Node)
+//@   ghost src gmap[int]int
+//@   at call append#1: ghost src[len(list)] := rangeindex
+//@   ensures nonnil: forall i int {r[i]} :: (0 <= i && i < len(r)) ==> r[i] != nil
+//@   ensures distinct-addresses: forall i, j int {r[i], r[j]} :: (0 <= i && i < j && j < len(r)) ==> nodeAddr(r[i]) != nodeAddr(r[j])
+//@   ensures no-longer-than-the-input: 0 <= len(r) && len(r) <= len(nodes) && fresh(r)
+//@   ensures local-entries-come-from-the-request-in-order: (forall a int {src[a]} :: (0 <= a && a < len(r)) ==> (0 <= src[a] && src[a] < len(nodes) && r[a] == nodes[src[a]])) && (forall a, b int {src[a], src[b]} :: (0 <= a && a < b && b < len(r)) ==> src[a] < src[b])
+//@   ensures input-unchanged: unchanged(nodes)
+//@   loop node: invariant bounds: -1 <= rangeindex && rangeindex < len(nodes) && 0 <= len(list) && len(list) <= rangeindex + 1
+//@   loop node: invariant own: fresh(list) && fresh(seen) && unchanged(nodes)
+//@   loop node: invariant nonnil: forall i int {list[i]} :: (0 <= i && i < len(list)) ==> list[i] != nil
+//@   loop node: invariant seen: forall i int {list[i]} :: (0 <= i && i < len(list)) ==> seen[nodeAddr(list[i])]
+//@   loop node: invariant nodup: forall i, j int {list[i], list[j]} :: (0 <= i && i < j && j < len(list)) ==> nodeAddr(list[i]) != nodeAddr(list[j])
+//@   loop node: invariant src: forall a int {src[a]} :: (0 <= a && a < len(list)) ==> (0 <= src[a] && src[a] <= rangeindex && list[a] == nodes[src[a]])
+//@   loop node: invariant mono: forall a, b int {src[a], src[b]} :: (0 <= a && a < b && b < len(list)) ==> src[a] < src[b]
+
+// lookup job k of PublishTunnel: the destination record published by the requested server
+//@ func (s *Server) PublishTunnel$1(fnCtx context.Context) (r *protocol.TunnelDestination, err error)
+//@   safety off
+//@   opt frame=off
+//@   requires s.Chord != nil
+//@   ghost lerr error = nil
+//@   ghost rec *protocol.TunnelDestination = nil
+//@   at call lookupDestination#1: assert looks-up-the-requested-servers-record: callarg2 == key
+//@   at after call lookupDestination#1: ghost lerr := callresult1
+//@   at after call lookupDestination#1: ghost rec := callresult0
+//@   ensures local-record-or-error: (lerr != nil ==> (err != nil && r == nil)) && (lerr == nil ==> (err == nil && r == rec))
+
+// publish job i of PublishTunnel: route slot i+1 of the hostname names the verified client and server i
+//@ func (s *Server) PublishTunnel$2(fnCtx context.Context) (r *protocol.Node, err error)
+//@   safety off
+//@   opt frame=off
+//@   requires s.Chord != nil
+//@   ghost wrote int = 0
+//@   at call MarshalVT#1: assert route-names-the-verified-client-and-this-server: bundle.ClientDestination == verifiedClient && bundle.ChordDestination == dst.GetChord() && bundle.TunnelDestination == dst.GetTunnel() && bundle.Hostname == hostname
+//@   at call Put#1: assert stored-under-the-hostnames-own-slot: str(callarg1) == tun.RoutingKey(hostname, i + 1) && callarg2 == val && wrote == 0
+//@   at call Put#1: ghost wrote := wrote + 1
+//@   ensures local-at-most-one-route-is-written: wrote <= 1
+//@   ensures local-a-published-slot-reports-its-server: r != nil ==> (wrote == 1 && r == dst.GetTunnel())
+
+//@ func (s *Server) PublishTunnel(ctx context.Context, req *protocol.PublishTunnelRequest) (resp *protocol.PublishTunnelResponse, err error)
+//@   safety off
+//@   opt frame=off
+//@   requires s.Chord != nil && req != nil
+//@   ghost aerr error = nil
+//@   ghost certToken *protocol.ClientToken = nil
+//@   ghost certClient *protocol.Node = nil
+//@   ghost owned bool = false
+//@   ghost checked bool = false
+//@   ghost nlookup int = -1
+//@   ghost npublish int = -1
+//@   at after call extractAuthenticated#1: ghost aerr := callresult2
+//@   at after call extractAuthenticated#1: ghost certToken := callresult0
+//@   at after call extractAuthenticated#1: ghost certClient := callresult1
+//@   at call Acquire#1: assert lease-is-the-callers: aerr == nil && str(callarg1) == tun.ClientLeaseKey(certToken)
+//@   at call PrefixContains#1: assert ownership-is-checked-against-the-callers-registrations: aerr == nil && str(callarg1) == tun.ClientHostnamesPrefix(certToken) && str(callarg2) == req.Hostname
+//@   at after call PrefixContains#1: ghost owned := callresult0 && callresult1 == nil
+//@   at after call PrefixContains#1: ghost checked := true
+//@   at call All#1: assert one-lookup-per-distinct-requested-server: checked && owned && len(callarg1) == len(requested) && 1 <= len(requested) && len(requested) <= 3
+//@   at call All#1: ghost nlookup := len(callarg1)
+//@   at call All#2: assert routes-are-written-only-for-an-owned-hostname-by-the-certificate-identity: checked && owned && verifiedClient == certClient && hostname == req.Hostname && len(callarg1) == nlookup
+//@   at call All#2: ghost npublish := len(callarg1)
+//@   ensures local-unverified-caller-is-refused: aerr != nil ==> (err != nil && resp == nil && s.Chord.kvWrites == old(s.Chord.kvWrites))
+//@   ensures local-success-only-for-an-owned-hostname: err == nil ==> (checked && owned && npublish >= 1 && npublish <= 3)
+//@   ensures local-unowned-hostname-is-refused-before-any-route: (checked && !owned) ==> (err != nil && nlookup == -1 && npublish == -1)
+//@   loop 1: invariant jobs: -1 <= rangeindex && rangeindex < len(requested) && len(lookupJobs) == len(requested) && unchanged(requested)
+//@   loop 1: invariant kept: checked && owned && aerr == nil && verifiedClient == certClient && hostname == req.Hostname && nlookup == -1 && npublish == -1
+//@   loop 2: invariant kept: checked && owned && aerr == nil && verifiedClient == certClient && hostname == req.Hostname && nlookup == len(requested) && npublish == -1 && len(destinations) == nlookup && 1 <= nlookup && nlookup <= 3
+//@   loop 3: invariant jobs: -1 <= rangeindex#3 && rangeindex#3 < len(destinations) && len(publishJobs) == len(destinations)
+//@   loop 3: invariant kept: checked && owned && aerr == nil && verifiedClient == certClient && hostname == req.Hostname && npublish == -1 && len(destinations) == nlookup && 1 <= nlookup && nlookup <= 3
+//@   loop 4: invariant kept: checked && owned && aerr == nil && npublish == nlookup && 1 <= nlookup && nlookup <= 3
+//@   loop 5: invariant kept: checked && owned && aerr == nil && npublish == nlookup && 1 <= nlookup && nlookup <= 3
+
+// delete job i of unadvertiseTunnel: route slot i+1 of the hostname
+//@ func (s *Server) unadvertiseTunnel$1(fnCtx context.Context) (r int, err error)
+//@   safety off
+//@   opt frame=off
+//@   requires s.Chord != nil
+//@   ghost derr error = nil
+//@   at call Delete#1: assert deletes-the-hostnames-own-slot: str(callarg1) == tun.RoutingKey(hostname, i + 1)
+//@   at after call Delete#1: ghost derr := callresult
+//@   ensures local-reports-the-delete-outcome: err == derr
+
+//@ func (s *Server) unadvertiseTunnel(ctx context.Context, token *protocol.ClientToken, hostname string) (err error)
+//@   safety off
+//@   opt frame=off
+//@   requires s.Chord != nil
+//@   ghost owned bool = false
+//@   ghost checked bool = false
+//@   ghost njobs int = -1
+//@   ghost e0 gmap[int]error
+//@   at call PrefixContains#1: assert ownership-is-checked-against-the-given-clients-registrations: str(callarg1) == tun.ClientHostnamesPrefix(token) && str(callarg2) == hostname
+//@   at after call PrefixContains#1: ghost owned := callresult0 && callresult1 == nil
+//@   at after call PrefixContains#1: ghost checked := true
+//@   at call All#1: assert all-three-slots-are-deleted-only-for-an-owned-hostname: checked && owned && len(callarg1) == 3
+//@   at call All#1: ghost njobs := len(callarg1)
+//@   at after call All#1: ghost e0 := snap(callresult1)
+//@   ensures local-unowned-hostname-is-refused-before-any-delete: !owned ==> (err != nil && njobs == -1 && s.Chord.kvWrites == old(s.Chord.kvWrites))
+//@   ensures local-success-means-every-slot-delete-succeeded: err == nil ==> (owned && njobs == 3 && (forall i int {e0[i]} :: (0 <= i && i < 3) ==> e0[i] == nil))
+//@   ensures success-only-for-an-owned-hostname: err == nil ==> owned
+//@   loop 1: invariant jobs: 0 <= rangeint$iter && rangeint$iter < 3 && len(unpublishJobs) == 3 && checked && owned && njobs == -1
+//@   loop 2: invariant checked-so-far: -1 <= rangeindex && rangeindex < len(errors) && len(errors) == 3 && njobs == 3 && checked && owned && (forall j int {e0[j]} :: (0 <= j && j <= rangeindex) ==> e0[j] == nil) && (forall j int {errors[j]} :: (0 <= j && j < 3) ==> errors[j] == e0[j])
+
+//@ func (s *Server) UnpublishTunnel(ctx context.Context, req *protocol.UnpublishTunnelRequest) (resp *protocol.UnpublishTunnelResponse, err error)
+//@   safety off
+//@   opt frame=off
+//@   requires s.Chord != nil && req != nil
+//@   ghost aerr error = nil
+//@   ghost certToken *protocol.ClientToken = nil
+//@   ghost uerr error = nil
+//@   ghost called bool = false
+//@   at after call extractAuthenticated#1: ghost aerr := callresult2
+//@   at after call extractAuthenticated#1: ghost certToken := callresult0
+//@   at call unadvertiseTunnel#1: assert routes-are-removed-for-the-callers-token-and-the-requested-hostname: aerr == nil && callarg2 == certToken && callarg3 == req.Hostname
+//@   at after call unadvertiseTunnel#1: ghost uerr := callresult
+//@   at after call unadvertiseTunnel#1: ghost called := true
+//@   ensures local-unverified-caller-is-refused: aerr != nil ==> (err != nil && !called && s.Chord.kvWrites == old(s.Chord.kvWrites))
+//@   ensures local-success-only-if-the-routes-were-removed: err == nil ==> (called && uerr == nil)
+
+//@ func (s *Server) ReleaseTunnel(ctx context.Context, req *protocol.ReleaseTunnelRequest) (resp *protocol.ReleaseTunnelResponse, err error)
+//@   safety off
+//@   opt frame=off
+//@   requires s.Chord != nil && req != nil
+//@   ghost aerr error = nil
+//@   ghost certToken *protocol.ClientToken = nil
+//@   ghost uerr error = nil
+//@   ghost called bool = false
+//@   ghost removed bool = false
+//@   ghost unbound bool = false
+//@   at after call extractAuthenticated#1: ghost aerr := callresult2
+//@   at after call extractAuthenticated#1: ghost certToken := callresult0
+//@   at call unadvertiseTunnel#1: assert routes-are-removed-for-the-callers-token-and-the-requested-hostname: aerr == nil && callarg2 == certToken && callarg3 == req.Hostname
+//@   at after call unadvertiseTunnel#1: ghost uerr := callresult
+//@   at after call unadvertiseTunnel#1: ghost called := true
+//@   at call PrefixRemove#1: assert registration-is-removed-only-after-the-ownership-checked-route-removal: called && uerr == nil && str(callarg1) == tun.ClientHostnamesPrefix(certToken) && str(callarg2) == req.Hostname
+//@   at call PrefixRemove#1: ghost removed := true
+//@   at call RemoveCustomHostname#1: assert custom-binding-is-removed-for-the-released-hostname: removed && callarg1 == s.Chord && callarg2 == req.Hostname
+//@   at call RemoveCustomHostname#1: ghost unbound := true
+//@   ensures local-unverified-caller-is-refused: aerr != nil ==> (err != nil && !called && s.Chord.kvWrites == old(s.Chord.kvWrites))
+//@   ensures local-a-release-removes-routes-registration-and-binding: err == nil ==> (called && uerr == nil && removed && unbound)
+//@   ensures local-unowned-hostname-keeps-its-registration: (called && uerr != nil) ==> (err != nil && !removed && !unbound)
+
+// ---- C29: binding a custom hostname
+//@ func (s *Server) AcmeInstruction(ctx context.Context, req *protocol.InstructionRequest) (resp *protocol.InstructionResponse, err error)
+//@   safety off
+//@   opt frame=off
+//@   requires s.Chord != nil && req != nil
+//@   ghost aerr error = nil
+//@   ghost nerr error = nil
+//@   ghost cerr error = nil
+//@   ghost checked bool = false
+//@   at after call extractAuthenticated#1: ghost aerr := callresult2
+//@   at after call Normalize#1: ghost nerr := callresult1
+//@   at call checkAcme#1: assert admissibility-is-checked-for-the-normalized-name-and-the-callers-identity: aerr == nil && nerr == nil && callarg2 == hostname && callarg3 == req.Proof && callarg4 == token && callarg5 == client
+//@   at after call checkAcme#1: ghost cerr := callresult1
+//@   at after call checkAcme#1: ghost checked := true
+//@   at call GenerateCustomRecord#1: assert instruction-is-for-this-hostname-and-the-callers-token: checked && cerr == nil && callarg0 == hostname && callarg1 == s.Acme && callarg2 == token.GetToken()
+//@   ensures local-refusals: (aerr != nil || nerr != nil || (checked && cerr != nil)) ==> (err != nil && resp == nil)
+//@   ensures instructions-never-write: s.Chord.kvWrites == old(s.Chord.kvWrites)
+
+//@ func (s *Server) AcmeValidate(ctx context.Context, req *protocol.ValidateRequest) (resp *protocol.ValidateResponse, err error)
+//@   safety off
+//@   opt frame=off
+//@   requires s.Chord != nil && req != nil
+//@   ghost aerr error = nil
+//@   ghost nerr error = nil
+//@   ghost cerr error = nil
+//@   ghost checked bool = false
+//@   ghost bound bool = false
+//@   ghost want string = ""
+//@   ghost qname string = ""
+//@   ghost lerr error = nil
+//@   ghost got string = ""
+//@   ghost resolved bool = false
+//@   ghost saved bool = false
+//@   at after call extractAuthenticated#1: ghost aerr := callresult2
+//@   at after call Normalize#1: ghost nerr := callresult1
+//@   at call checkAcme#1: assert admissibility-is-checked-for-the-normalized-name-and-the-callers-identity: aerr == nil && nerr == nil && callarg2 == hostname && callarg3 == req.Proof && callarg4 == token && callarg5 == client
+//@   at after call checkAcme#1: ghost cerr := callresult1
+//@   at after call checkAcme#1: ghost bound := callresult0
+//@   at after call checkAcme#1: ghost checked := true
+//@   at call GenerateCustomRecord#1: assert challenge-is-for-this-hostname-and-the-callers-token: checked && cerr == nil && callarg0 == hostname && callarg1 == s.Acme && callarg2 == token.GetToken()
+//@   at after call GenerateCustomRecord#1: ghost qname := callresult0
+//@   at after call GenerateCustomRecord#1: ghost want := callresult1
+//@   at call LookupCNAME#1: assert the-challenge-name-is-resolved: callarg1 == qname
+//@   at after call LookupCNAME#1: ghost lerr := callresult1
+//@   at after call LookupCNAME#1: ghost got := callresult0
+//@   at after call LookupCNAME#1: ghost resolved := true
+//@   at call SaveCustomHostname#1: assert bound-only-after-dns-proof-or-if-already-bound-to-this-client: checked && cerr == nil && (bound || (resolved && lerr == nil && got == want)) && callarg1 == s.Chord && callarg2 == hostname && callarg3.ClientIdentity == client && callarg3.ClientToken == token
+//@   at call SaveCustomHostname#1: ghost saved := true
+//@   at call PrefixAppend#1: assert registered-only-after-the-binding-was-saved: saved && str(callarg1) == tun.ClientHostnamesPrefix(token) && str(callarg2) == hostname
+//@   ensures local-refusals-write-nothing: (aerr != nil || nerr != nil || (checked && cerr != nil) || (checked && cerr == nil && !bound && resolved && (lerr != nil || got != want))) ==> (err != nil && !saved && s.Chord.kvWrites == old(s.Chord.kvWrites))
+//@   ensures local-success-means-bound: err == nil ==> saved
